@@ -41,3 +41,5 @@ import jobs_c15  # noqa: E402,F401
 import jobs_c13  # noqa: E402,F401
 import jobs_c05  # noqa: E402,F401
 import jobs_c14  # noqa: E402,F401
+import jobs_c07  # noqa: E402,F401
+import jobs_c06  # noqa: E402,F401
